@@ -66,7 +66,7 @@ def _build(src):
         rng = random.Random(src["seed"])
         k = rng.randint(1, 3)
         S = rng.choice(["a", "ab", "ab"])
-        G = rng.choice(["X", "XY", "X$"])
+        G = rng.choice(["X", "XY", "X$", "X", "XY", ["X", "XX", "Y"], ["a", "b", "ab"]])   # also stack symbols of several characters
         P, _ = U.random_pda(rng, k, S, G, ntrans=rng.randint(1, 7), eps=eps, prefix=rng.choice(["s", "q"]))
         return P
     if src["kind"] == "pda_nfa_like":
@@ -74,16 +74,20 @@ def _build(src):
         rng = random.Random(src["seed"])
         Q = U.names(rng.randint(2, 4), "s")
         trans = []
+        # every fourth: two stack symbols, one of which is spelled like two of the other (X, XX)
+        two = src["seed"] % 4 == 3
+        stack_moves = ([(eps, eps)] * 2 + [(eps, "X"), ("X", eps), (eps, "XX"), ("XX", eps)]) if two else \
+            ([(eps, eps)] * 4 + [(eps, "X"), ("X", eps)])
         for p in Q:
             for a in "ab":
                 for q in Q:
                     if rng.random() < 0.4:
-                        u, v = rng.choice([(eps, eps)] * 4 + [(eps, "X"), ("X", eps)])
+                        u, v = rng.choice(stack_moves)
                         trans.append((p, a, u, q, v))
         if rng.random() < 0.3:
             trans.append((rng.choice(Q), eps, eps, rng.choice(Q), eps))
         F = [q for q in Q if rng.random() < 0.4]
-        return U.make_pda(Q, "ab", "X", trans, Q[0], F, eps)
+        return U.make_pda(Q, "ab", ["X", "XX"] if two else "X", trans, Q[0], F, eps)
     if src["kind"] == "pda_eps_graph":
         # 4-8 states, many stack-free epsilon moves (cycles AND chains), a few pushes/pops of one symbol and a few
         # letter moves: finite closures of 4-20 configurations that need as many pops as they have members
@@ -104,6 +108,14 @@ def _build(src):
             trans.append((rng.choice(Q), "a", rng.choice([eps, eps, "X"]), rng.choice(Q), rng.choice([eps, eps, "X"])))
         F = [order[-1]] if rng.random() < 0.6 else [q for q in Q if rng.random() < 0.3]
         return U.make_pda(Q, "a", "X", sorted(set(trans)), order[0], F, eps)
+    if src["kind"] == "pda_spelling":
+        # stack symbols X and XX: the stacks [X,XX] and [XX,X] are different but are SPELLED alike; both pushes and any
+        # non-empty subset (mask) of six pops that tell them apart
+        push = [("s0", "a", eps, "s0", "X"), ("s0", "b", eps, "s0", "XX")]
+        pops = [("s0", "a", "X", "s1", eps), ("s0", "b", "X", "s1", eps), ("s0", "a", "XX", "s1", eps),
+                ("s0", "b", "XX", "s1", eps), ("s1", "a", "X", "s1", eps), ("s1", "b", "XX", "s1", eps)]
+        tr = push + [pops[i] for i in range(6) if (src["mask"] >> i) & 1]
+        return U.make_pda(["s0", "s1"], "ab", ["X", "XX"], tr, "s0", ["s1"], eps)
     if src["kind"] == "pda_markers":
         # stack alphabets that contain the markers the constructions want to use themselves: the dummy symbol of
         # the push/pop form and ALL candidates for the bottom-of-stack marker
